@@ -88,13 +88,13 @@ CLASSES = [
     ('ipmw', 'IPMW', 'zepid/causal/ipw/IPMW.py', [('regression_models', {}), ('fit', {})], ['IPMW', 'IPMWuniform']),
     ('ipcw', 'IPCW', 'zepid/causal/ipw/IPCW.py', [('regression_models', {}), ('fit', {})], ['IPCW']),
     ('monteCarlo', 'MonteCarloGFormula', 'zepid/causal/gformula/TimeVary.py',
-     [('exposure_model', {}), ('outcome_model', {}), ('censoring_model', {}), ('add_covariate_model', {}),
-      ('fit', {})], ['MonteCarloGFormula']),
+     [('exposure_model', {}), ('outcome_model', {}), ('censoring_model', {}), ('add_covariate_model', {'label': 1}),
+      ('add_covariate_model', {'label': 2}), ('fit', {})], ['MonteCarloGFormula']),
     ('iterCond', 'IterativeCondGFormula', 'zepid/causal/gformula/TimeVary.py',
      [('outcome_model', {}), ('fit', {})], ['IterativeCondGFormula']),
 ] + [
     (d, c, 'zepid/causal/doublyrobust/crossfit.py',
-     [('exposure_model', {}), ('outcome_model', {}), ('fit', {}), ('summary', {})], [c])
+     [('exposure_model', {}), ('outcome_model', {}), ('fit', {}), ('summary', {}), ('run_diagnostics', {})], [c])
     for d, c in (('xfSingleAiptw', 'SingleCrossfitAIPTW'), ('xfDoubleAiptw', 'DoubleCrossfitAIPTW'),
                  ('xfSingleTmle', 'SingleCrossfitTMLE'), ('xfDoubleTmle', 'DoubleCrossfitTMLE'))]
 
@@ -102,8 +102,9 @@ CLASSES = [
 PARAM_ATTR = {'_miss_flag': 'miss'}
 
 # Documented additive methods: "covariate models are added by repeated calls".  The in-place `.append` on these lists
-# is the method's documented effect, not stale state; the table models the method as a slot under the harness
-# restriction that it is called at most once per object (`once=True` in harness/props/c11.py).  Any other in-place
+# is the method's documented effect, not stale state; the table models the method as one slot per label (a table variant
+# `add_covariate_model(label=k)`) under the harness restriction that each label is used at most once per object
+# (`once=True` in harness/props/c11.py): the specification is the set of labelled models, not the order of the calls.  Any other in-place
 # mutation in the method, or an append to another attribute, is refused like everywhere else.
 ADDITIVE = {('MonteCarloGFormula', 'add_covariate_model'):
             {'_covariate_models', '_covariate_model_index', '_covariate', '_covariate_type', '_covariate_recode'}}
@@ -129,6 +130,11 @@ IMPLICIT = {
     ('TMLE', 'standardized_mean_differences'): [('g1W', None)],
     ('GEstimationSNM', 'summary'): [('psi_labels', None)],
     ('IPCW', 'fit'): [('df[__cnumer__]', None)],
+    # the diagnostic plots of the cross-fit estimators take the minimum of the per-partition vectors (None before a fit)
+    ('SingleCrossfitAIPTW', 'run_diagnostics'): [('ace_vector', None), ('risk_difference_vector', None)],
+    ('DoubleCrossfitAIPTW', 'run_diagnostics'): [('ace_vector', None), ('risk_difference_vector', None)],
+    ('SingleCrossfitTMLE', 'run_diagnostics'): [('ace_vector', None), ('risk_difference_vector', None)],
+    ('DoubleCrossfitTMLE', 'run_diagnostics'): [('ace_vector', None), ('risk_difference_vector', None)],
 }
 
 MUTATORS = {'append', 'extend', 'insert', 'pop', 'remove', 'clear', 'sort', 'reverse', 'update', 'setdefault',
@@ -253,6 +259,100 @@ class Flow:
         self.nxt, self.ret, self.brk, self.cont = nxt or [], ret or [], brk or [], cont or []
 
 
+# ------------------------------------------------------------------------------------------ module-level helpers
+class Helpers:
+    """Module-level functions a method hands its state (or its caller's arguments) to: which of their parameters do they
+    change in place?  The function is walked like a method (same abstract interpretation, every parameter an `arg`);
+    an in-place mutation of a parameter is collected instead of refused.  Functions imported from other zEpid modules
+    (`from zepid.causal.utils import ...`, `from .utils import ...`) are followed into their files; helpers calling
+    helpers are followed transitively.  A helper the walker cannot digest for another reason is left to gates K / D, as
+    every helper was before (recorded in `unknown`)."""
+
+    _cache = {}      # (file, function) -> (parameter names, names mutated in place) | None
+
+    def __init__(self, tree, path, repo):
+        self.repo, self.path = repo, path
+        self.trees = {path: tree}
+        self.unknown = {}
+        self.busy = set()
+
+    def tree(self, path):
+        if path not in self.trees:
+            try:
+                with open(os.path.join(self.repo, path)) as f:
+                    self.trees[path] = ast.parse(f.read())
+            except (OSError, SyntaxError):
+                self.trees[path] = None
+        return self.trees[path]
+
+    def module_file(self, frm, module, level):
+        """file of `from <module> import ...` written in file `frm`"""
+        if level:
+            base = os.path.dirname(frm)
+            for _ in range(level - 1):
+                base = os.path.dirname(base)
+            parts = [base] + (module.split('.') if module else [])
+        else:
+            if not module or module.split('.')[0] != 'zepid':
+                return None
+            parts = module.split('.')
+        stem = os.path.join(*parts)
+        for cand in (stem + '.py', os.path.join(stem, '__init__.py')):
+            if os.path.exists(os.path.join(self.repo, cand)):
+                return cand
+        return None
+
+    def resolve(self, path, name, depth=0):
+        """-> (file, FunctionDef) of the module-level function `name` as seen from file `path`, or None"""
+        tree = self.tree(path) if path else None
+        if tree is None or depth > 4:
+            return None
+        for n in tree.body:
+            if isinstance(n, ast.FunctionDef) and n.name == name:
+                return path, n
+        for n in tree.body:
+            if isinstance(n, ast.ImportFrom):
+                for a in n.names:
+                    if (a.asname or a.name) == name:
+                        return self.resolve(self.module_file(path, n.module, n.level), a.name, depth + 1)
+        return None
+
+    def mutated(self, path, name):
+        """-> (parameter names in order, set of parameters changed in place) or None (not a zEpid function / unknown)"""
+        r = self.resolve(path, name)
+        if r is None:
+            return None
+        fpath, fn = r
+        key = (os.path.join(self.repo, fpath), name, fn.lineno)
+        params = [a.arg for a in fn.args.args] + [a.arg for a in fn.args.kwonlyargs]
+        if key in self.busy:
+            return params, set()
+        if key not in Helpers._cache:
+            self.busy.add(key)
+            try:
+                f2 = ast.parse(ast.unparse(fn)).body[0]
+                f2.args.args.insert(0, ast.arg(arg='self'))
+                f2.decorator_list = []
+                cdef = ast.ClassDef(name='<module>', bases=[], keywords=[], body=[f2], decorator_list=[])
+                w = Walker('<helper>', cdef)
+                tree = self.tree(fpath)
+                w.imported = {(a.asname or a.name).split('.')[0] for n in ast.walk(tree)
+                              if isinstance(n, (ast.Import, ast.ImportFrom)) for a in n.names} | \
+                    {n.name for n in tree.body if isinstance(n, (ast.FunctionDef, ast.ClassDef))}
+                w.helpers, w.helper_path, w.arg_sink = self, fpath, set()
+                w.implicit_hit = set()
+                w.run(name, {})
+                Helpers._cache[key] = (params, set(w.arg_sink))
+            except EffUnsupported as e:
+                Helpers._cache[key] = None
+                self.unknown['%s:%s' % (fpath, name)] = str(e)[:160]
+            except RecursionError:
+                Helpers._cache[key] = None
+            finally:
+                self.busy.discard(key)
+        return Helpers._cache[key]
+
+
 # ------------------------------------------------------------------------------------------ the walker
 class Walker:
     def __init__(self, clsname, classdef, init_consts=None, const_attrs=frozenset(), caller_held=frozenset()):
@@ -267,6 +367,8 @@ class Walker:
         self.caller_held = caller_held          # attributes in which __init__ keeps the caller's own object (no copy)
         self.init_consts = init_consts or {}      # constructor-constant attribute -> ('c', value) when known
         self.const_attrs = const_attrs            # attributes never stored outside __init__ (syntactic)
+        self.helpers, self.helper_path = None, None   # module-level functions (Helpers) and the file of this class
+        self.arg_sink = None                      # helper analysis: parameters changed in place are collected here
         self.reset(None)
 
     def reset(self, variant):
@@ -474,6 +576,9 @@ class Walker:
             self.fail('in-place mutation of stored state self.%s (%s): survives the call and is not reset' % (av[1], what),
                       node)
         if av[0] == 'arg':
+            if self.arg_sink is not None:
+                self.arg_sink.add(av[1])
+                return
             self.fail('in-place mutation of the caller\'s argument `%s` (%s)' % (av[1], what), node)
         if av[0] == 'self':
             self.fail('mutation of self (%s)' % what, node)
@@ -516,6 +621,16 @@ class Walker:
             self.mutate(st, args[0], '%s(...) writes into its first argument' % fname, node)
         if 'out' in kwargs:
             self.mutate(st, kwargs['out'], '%s(..., out=...)' % fname, node)
+        if isinstance(f, ast.Name) and self.helpers is not None and f.id not in st.L and \
+                any(av[0] in ('attr', 'arg') for av in args + list(kwargs.values())):
+            info = self.helpers.mutated(self.helper_path, f.id)
+            if info is not None and info[1]:
+                actual = dict(zip(info[0], args))
+                actual.update(kwargs)
+                for p_ in sorted(info[1]):
+                    if p_ in actual:
+                        self.mutate(st, actual[p_], 'the helper %s(...) changes its parameter `%s` in place' % (f.id, p_),
+                                    node)
         if isinstance(f, ast.Name):
             if f.id in ('setattr', 'delattr'):
                 self.fail('%s(...)' % f.id, node)
@@ -1016,9 +1131,11 @@ def is_public_attr(a):
     return not a.startswith('_') and '[' not in a
 
 
-def analyse_class(text, clsname, methods):
-    """-> dict describing the class table; raises EffUnsupported"""
+def analyse_class(text, clsname, methods, path=None, repo=None):
+    """-> dict describing the class table; raises EffUnsupported.  `path` (file of the class, relative to the repository
+    `repo`): module-level helpers the methods call are then analysed for in-place changes of what they are handed."""
     tree = ast.parse(text)
+    helpers = Helpers(tree, path, repo or os.environ.get('ZEPID_REPO', '/repo')) if path else None
     cdef = next((n for n in tree.body if isinstance(n, ast.ClassDef) and n.name == clsname), None)
     if cdef is None:
         raise EffUnsupported('class %s not found' % clsname)
@@ -1031,6 +1148,7 @@ def analyse_class(text, clsname, methods):
     imported |= {n.name for n in tree.body if isinstance(n, (ast.FunctionDef, ast.ClassDef))}
     w0 = Walker(clsname, cdef)
     w0.imported = imported
+    w0.helpers, w0.helper_path = helpers, path
     if '__init__' not in w0.funcs:
         raise EffUnsupported('%s has no __init__' % clsname)
     stored = stored_outside_init(cdef)
@@ -1049,6 +1167,7 @@ def analyse_class(text, clsname, methods):
     w = Walker(clsname, cdef, init_consts={a: v for a, v in init_const.items() if a in const_syntactic},
                const_attrs=const_syntactic, caller_held=held)
     w.imported = imported
+    w.helpers, w.helper_path = helpers, path
     w.implicit_hit = set()
     # ---- every public method; table variants first
     public = [n for n in w.funcs if not n.startswith('_') and n not in w.static]
@@ -1178,10 +1297,22 @@ def analyse_class(text, clsname, methods):
                     if inc and a in maywrite[m] - scratch and a in cond:
                         selfdep.setdefault(m, set()).add(a)
     # ---- slots in table order
-    slot = {}
-    for m, _ in methods:
-        if role.get(m) == 'spec' and m not in slot:
-            slot[m] = len(slot)
+    # (a documented additive, labelled method -- ADDITIVE -- has one slot per table variant, i.e. per label: what a call
+    # adds is held under its label, calls with different labels do not replace one another, and the canonical order of
+    # the slots is the order of the labels in the table, whatever the order of the calls)
+    slot, vslot, nslots = {}, {}, 0
+    for m, fx in methods:
+        if role.get(m) != 'spec':
+            continue
+        if (clsname, m) in ADDITIVE and fx:
+            vkey = (m, tuple(sorted(fx.items())))
+            if vkey not in vslot:
+                vslot[vkey] = nslots
+                slot.setdefault(m, nslots)
+                nslots += 1
+        elif m not in slot:
+            slot[m] = nslots
+            nslots += 1
     reg_index = {m: i for i, (m, _, _) in enumerate(registers)}
     # ---- guards per variant
     init_val = dict(init_const)
@@ -1273,7 +1404,8 @@ def analyse_class(text, clsname, methods):
                 else:
                     req.add(k)
         g = {'name': mname, 'fixed': fx, 'role': role.get(mname, 'read'), 'req': sorted(req), 'needsFit': needs_fit,
-             'blocked': blocked, 'writes': slot.get(mname) if role.get(mname) == 'spec' else None,
+             'blocked': blocked,
+             'writes': vslot.get((mname, tuple(sorted(fx.items()))), slot.get(mname)) if role.get(mname) == 'spec' else None,
              'isFit': role.get(mname) == 'fit', 'sticky': reg_index.get(mname),
              'lock': reg_index.get(mname) if mname in selfdep else locks.get(mname)}
         sigs.append(g)
@@ -1285,13 +1417,13 @@ def analyse_class(text, clsname, methods):
                     raise EffUnsupported('%s.%s: the declared failing read of %s%s is no longer in the source'
                                          % (clsname, mm, a, (' (together with %s)' % co) if co else ''))
     additive = sorted(set().union(*[v['additive'] for v in allv]))
-    return {'class': clsname, 'nslots': len(slot), 'nregs': len(registers), 'sigs': sigs,
+    return {'class': clsname, 'nslots': nslots, 'nregs': len(registers), 'sigs': sigs,
             'slots': {m: sorted(maywrite[m] - scratch) for m in slot},
             'fit_state': sorted(set().union(*[maywrite[m] - scratch for m in fits])) if fits else [],
             'registers': [(m, attrs, {a: (c[a][0][0], c[a][1], c[a][2]) for a in attrs}) for m, attrs, c in registers],
             'assumes': sorted(set(assumes)), 'param': any(s['blocked'] for s in sigs), 'additive': additive,
             'scratch': sorted(scratch), 'const': sorted(const_attrs), 'caller_held': sorted(held), 'notes': sorted({n for v in allv for n in v['notes']}),
-            'init_notes': init['notes']}
+            'init_notes': init['notes'], 'helpers_not_analysed': dict(helpers.unknown) if helpers else {}}
 
 
 # ------------------------------------------------------------------------------------------ Lean text
@@ -1319,8 +1451,13 @@ def lean_table(defname, res, path):
     c = res
     doc = ['`%s` (%s): table derived from the source.' % (c['class'], path)]
     for m, attrs in c['slots'].items():
-        k = next(s['writes'] for s in c['sigs'] if s['name'] == m)
-        doc.append('slot %d = %s, assigns %s' % (k, m, ', '.join(attrs)))
+        for s in c['sigs']:
+            if s['name'] == m and s['writes'] is not None:
+                fx = ('(' + ', '.join('%s=%r' % kv for kv in sorted(s['fixed'].items())) + ')') if s['fixed'] and \
+                    sum(1 for t in c['sigs'] if t['name'] == m and t['writes'] is not None) > 1 else ''
+                doc.append('slot %d = %s%s, assigns %s' % (s['writes'], m, fx, ', '.join(attrs)))
+                if not fx:
+                    break
     if c['fit_state']:
         doc.append('fit state: ' + ', '.join(c['fit_state']))
     for i, (m, attrs, why) in enumerate(c['registers']):
@@ -1329,7 +1466,7 @@ def lean_table(defname, res, path):
             doc.append('REGISTER %d: %s assigns %s only on some paths%s; a call of %s that does not assign it leaves the '
                        'earlier value, read by %s' % (i, m, a, (' (' + '; '.join(when) + ')') if when else '', silent, rm))
     if c['additive']:
-        doc.append('additive by documentation (modelled as one slot, called at most once): appends to ' +
+        doc.append('additive by documentation (one slot per label, each called at most once): appends to ' +
                    ', '.join(c['additive']))
     for a in c['assumes']:
         doc.append('assumes the configuration ' + a)
@@ -1352,7 +1489,7 @@ def analyse_repo_class(defname, repo=None):
     for d, cls, path, methods, names in CLASSES:
         if d == defname:
             with open(os.path.join(repo, path)) as f:
-                return analyse_class(f.read(), cls, methods), path
+                return analyse_class(f.read(), cls, methods, path=path, repo=repo), path
     raise KeyError(defname)
 
 
@@ -1377,7 +1514,7 @@ def selftest(repo=None):
             if r.returncode != 0:
                 return []
             try:
-                res = analyse_class(r.stdout, cls, methods)
+                res = analyse_class(r.stdout, cls, methods, path=path, repo=repo)
                 regs = sorted(a for m, attrs, _ in res['registers'] for a in attrs)
                 got = attr in regs
                 out.append({'rev': rev, 'class': cls, 'registers': regs, 'ok': got == want and (want or not regs)})
